@@ -177,6 +177,144 @@ def e2e_stress(ck, stress, specs, runs=2):
     return n
 
 
+# ------------------------------------------------------------------------------------------
+# positions OUTSIDE Class/Syntax.v: rarely walked expression / target positions, written as Python templates only.
+# The oracle is Python's own parser: `ast` lists the self.x / self.m() nodes of every method (whatever the position), the
+# method graph and its components are computed from that list.  (name, root-cause group, kinds, template lines);
+# kinds: "e" any expression (self.x and self.m()), "n" a dotted name only (self.x), "t" store target (self.x)
+# ------------------------------------------------------------------------------------------
+EXTRA_POSITIONS = [
+    # an f-string that is one part of an implicit string concatenation
+    ("XFStringConcatFirst", "fstring-in-concatenation", "e", ['v = f"{$E}" "tail"']),
+    ("XFStringConcatSecond", "fstring-in-concatenation", "e", ['v = "head" f"{$E}"']),
+    ("XFStringConcatBoth", "fstring-in-concatenation", "e", ['v = f"{q}" f"{$E}"']),
+    ("XFStringConcatSpec", "fstring-in-concatenation", "e", ['v = "head" f"{q:>{$E}}"']),
+    ("XYieldFrom", "yield-from", "e", ["yield from $E"]),
+    ("XExceptTypeAs", "except-type-as", "e", ["try:", "    pass", "except $E as err:", "    pass"]),
+    ("XExceptTupleAs", "except-type-as", "e", ["try:", "    pass", "except (E, $E) as err:", "    pass"]),
+    ("XExceptTuple", "except-type", "e", ["try:", "    pass", "except (E, $E):", "    pass"]),
+    # several `if` clauses of one comprehension
+    ("XCompFirstIfOfTwo", "comprehension-several-ifs", "e", ["v = [i for i in y if $E if d]"]),
+    ("XCompLastIfOfTwo", "comprehension-last-if", "e", ["v = [i for i in y if c if $E]"]),
+    ("XCompFirstIfOfThree", "comprehension-several-ifs", "e", ["v = [i for i in y if $E if d if e]"]),
+    ("XCompMiddleIfOfThree", "comprehension-several-ifs", "e", ["v = {i for i in y if c if $E if e}"]),
+    ("XDictCompFirstIfOfTwo", "comprehension-several-ifs", "e", ["v = {i: 1 for i in y if $E if d}"]),
+    ("XGenExpFirstIfOfTwo", "generator-several-ifs", "e", ["v = sum(i for i in y if $E if d)"]),
+    ("XCompSecondForIter", "comprehension-clauses", "e", ["v = [i for j in y for i in $E]"]),
+    ("XCompIfBetweenFors", "comprehension-clauses", "e", ["v = [i for j in y if $E for i in j]"]),
+    ("XDictCompKey", "comprehension-clauses", "e", ["v = {$E: i for i in y}"]),
+    # parameters of a nested def / lambda
+    ("XNestedDefTypedDefault", "typed-default-parameter", "e", ["def g(a: int = $E):", "    pass"]),
+    ("XNestedDefTypedKwDefault", "typed-default-parameter", "e", ["def g(a=1, *, b: int = $E):", "    pass"]),
+    ("XNestedDefKwDefault", "parameters", "e", ["def g(*, a=$E):", "    pass"]),
+    ("XNestedDefParamAnnotation", "parameters", "e", ["def g(a: $E):", "    pass"]),
+    ("XNestedDefReturnAnnotation", "parameters", "e", ["def g() -> $E:", "    pass"]),
+    ("XLambdaDefault", "parameters", "e", ["v = lambda a=$E: a"]),
+    # starred targets / values
+    ("XStarTargetFirst", "starred-first-target", "t", ["*$E, yy = xs"]),
+    ("XStarTargetLast", "starred", "t", ["yy, *$E = xs"]),
+    ("XForStarTarget", "starred", "t", ["for a, *$E in xs:", "    pass"]),
+    ("XStarInList", "starred", "e", ["v = [*$E, 1]"]),
+    # match statement patterns
+    ("XMatchValue", "match-pattern", "n", ["match v:", "    case $E:", "        pass"]),
+    ("XMatchSequence", "match-pattern", "n", ["match v:", "    case [$E, 1]:", "        pass"]),
+    ("XMatchOr", "match-pattern", "n", ["match v:", "    case 1 | $E:", "        pass"]),
+    ("XMatchClassKeyword", "match-pattern", "n", ["match v:", "    case P(x=$E):", "        pass"]),
+    ("XMatchMappingValue", "match-pattern", "n", ["match v:", "    case {\"k\": $E}:", "        pass"]),
+    ("XMatchGuard", "match", "e", ["match v:", "    case 1 if $E:", "        pass"]),
+    # a class defined inside the method
+    ("XNestedClassBase", "nested-class-bases", "e", ["class In($E):", "    pass"]),
+    ("XNestedClassKeyword", "nested-class-bases", "e", ["class In(metaclass=$E):", "    pass"]),
+    ("XNestedClassBody", "nested-class", "e", ["class In:", "    q = $E"]),
+    # further expression positions
+    ("XSliceUpper", "expression", "e", ["v = a[1:$E]"]),
+    ("XSliceStep", "expression", "e", ["v = a[::$E]"]),
+    ("XDelSubscriptIndex", "expression", "e", ["del d[$E]"]),
+    ("XAugSubscriptIndex", "expression", "e", ["d[$E] += 1"]),
+    ("XAnnAssignAnnotation", "expression", "e", ["v: $E = 1"]),
+    ("XReturnTupleElt", "expression", "e", ["return 1, $E"]),
+    ("XWithSecondItem", "expression", "e", ["with w, $E:", "    pass"]),
+    ("XChainedCompareLast", "expression", "e", ["v = 1 < 2 < $E"]),
+    ("XMatMulLeft", "expression", "e", ["v = $E @ m"]),
+    ("XTernaryInLambda", "expression", "e", ["v = (lambda: 0) if $E else 1"]),
+    ("XGlobalPrintStar", "expression", "e", ["print(*$E)"]),
+    ("XAwait", "expression", "e", ["async def g():", "    return await $E"]),
+    ("XAsyncForIter", "expression", "e", ["async def g():", "    async for i in $E:", "        pass"]),
+    ("XAsyncWithItem", "expression", "e", ["async def g():", "    async with $E:", "        pass"]),
+]
+
+
+def py_method_graph(src, cls_name="K"):
+    """(LCOM4, groups) of class cls_name, read off Python's own syntax tree: vertices = the instance methods (the last definition
+    of a name), edge = a common self attribute (self.x, and self.m of self.m()) or a call self.m() of a method of the class"""
+    import ast
+    tree = ast.parse(src)
+    cls = [n for n in ast.walk(tree) if isinstance(n, ast.ClassDef) and n.name == cls_name][0]
+    meths = {}
+    for fn in cls.body:
+        if isinstance(fn, (ast.FunctionDef, ast.AsyncFunctionDef)):
+            decos = {d.id for d in fn.decorator_list if isinstance(d, ast.Name)}
+            if decos & {"staticmethod", "classmethod"}:
+                meths.pop(fn.name, None)
+                continue
+            attrs = {n.attr for n in ast.walk(fn) if isinstance(n, ast.Attribute) and isinstance(n.value, ast.Name) and n.value.id == "self"}
+            calls = {n.func.attr for n in ast.walk(fn) if isinstance(n, ast.Call) and isinstance(n.func, ast.Attribute)
+                     and isinstance(n.func.value, ast.Name) and n.func.value.id == "self"}
+            meths[fn.name] = (attrs, calls)
+    names = sorted(meths)
+    edges = [(i, j) for i, a in enumerate(names) for j, b in enumerate(names)
+             if i < j and (meths[a][0] & meths[b][0] or b in meths[a][1] or a in meths[b][1])]
+    groups = sorted(sorted(names[x] for x in comp) for comp in cg._components(len(names), edges))
+    return (1 if len(names) <= 1 else len(groups)), groups
+
+
+def extra_position_cases():
+    out = []
+    for pname, group, kinds, tpl in EXTRA_POSITIONS:
+        pats = [("attr-attr", "self.x", "other.q", ["return self.x"], ["return self.z"])]
+        if kinds == "e":
+            pats.append(("call", "self.b()", "other.q()", ["return self.y"], ["pass"]))
+            pats.append(("nested-attr", "Dep(other.fn(self.x))", "Dep(other.fn(other.q))", ["return self.x"], ["return self.z"]))
+        for pat, expr, neutral, b_body, c_body in pats:
+            def text(e):
+                lines = ["class K:", "    def a(self):"] + ["        " + l.replace("$E", e) for l in tpl] + ["", "    def b(self):"] + \
+                        ["        " + l for l in b_body] + ["", "    def c(self):"] + ["        " + l for l in c_body]
+                return "\n".join(lines) + "\n"
+            out.append({"position": pname, "group": group, "pattern": pat, "src": text(expr), "src_without": text(neutral)})
+    return out
+
+
+def check_extra_positions(ck):
+    cases = extra_position_cases()
+    impl = lib.driver([{"op": "lcom", "src": c["src"]} for c in cases])
+    n_known = n_viol = 0
+    for c, r in zip(cases, impl):
+        want = py_method_graph(c["src"])
+        without = py_method_graph(c["src_without"])
+        ks = [x for x in r.get("classes", []) if x["name"] == "K"] if "error" not in r else []
+        if len(ks) != 1:
+            n_viol += 1
+            ck.violation("LCOM analysis failed or class K missing: %s" % str(r)[:300], {"kind": "extra-position", "source": c["src"]})
+            continue
+        got = (ks[0]["lcom4"], sorted(sorted(g) for g in ks[0]["groups"]))
+        if got == want:
+            continue
+        tags = {"class": "position-outside-syntax", "position": c["position"], "position_group": c["group"], "pattern": c["pattern"],
+                "only_that_access_missing": got == without and want != without}
+        e = ck.match_known(tags)
+        if e:
+            n_known += 1
+            ck.known_finding(e)
+            continue
+        n_viol += 1
+        if n_viol <= 6:
+            ck.violation("LCOM4 %d, groups %s; Python's syntax tree of the class gives the method graph %d components %s (position %s, %s)"
+                         % (got[0], got[1], want[0], want[1], c["position"], c["pattern"]),
+                         {"kind": "extra-position", "tags": tags, "source": c["src"], "impl": ks[0], "spec": {"lcom4": want[0], "groups": want[1]},
+                          "components_without_that_access": {"lcom4": without[0], "groups": without[1]}})
+    return len(cases), n_known, n_viol
+
+
 def coq_opts(c, dlow, dmed):
     return "(LcomOptions (%d)%%Z (%d)%%Z)" % (dlow if c["low"] is None else c["low"], dmed if c["med"] is None else c["med"])
 
@@ -187,7 +325,7 @@ def names_of(gs):
 
 def eval_coq(cases, dlow, dmed):
     jobs = []
-    shard = 100
+    shard = min(300, max(100, -(-len(cases) // 12)))       # one round of the 12 workers when possible
     for off in range(0, len(cases), shard):
         items = ["run_lcom %s %s" % (coq_opts(c, dlow, dmed), cg.class_coq(c["cls"])) for c in cases[off:off + shard]]
         jobs.append(("C14_cases_%d" % off, REQ, "Definition cases := %s.\nEval vm_compute in cases.\n" % cg.clist(items)))
@@ -381,6 +519,14 @@ def main(tier):
                 ck.violation("implementation %s differs from the model of lcom.go %s" % ((ic["lcom4"], igroups, ic["total"], ic["excluded"], ic["risk"]),
                                                                                        (m4, mgroups, mtotal, mexcl, mrisk)), replay)
 
+    n_extra = 0
+    try:
+        n_extra, k2, b2 = check_extra_positions(ck)
+        n_known += k2
+        n_viol += b2
+    except Exception as e:
+        ck.broken_ties.append("extra positions (outside Class/Syntax.v) failed: %s" % str(e)[-600:])
+
     n_e2e = 0
     try:
         n_e2e = e2e(ck, cases, impl)
@@ -394,16 +540,18 @@ def main(tier):
 
     ck.samples = [{"source": reqs[i]["src"], "impl": results[i], "tags": cases[i]["tags"]} for i in (2, stress_at - 2, len(cases) - 2) if results[i]]
     ck.cov.update({
-        "evaluations": len(cases) + n_table + n_e2e + max(0, n_stress_runs - (len(cases) - stress_at)),
+        "evaluations": len(cases) + n_table + n_e2e + n_extra + max(0, n_stress_runs - (len(cases) - stress_at)),
         "distinct_nontrivial": len(distinct),
         "rule": "position x access-pattern matrix (self.x shared, self.m() call, shared call name, other.x, cls.x, attribute named like a method, "
-                "self.x / self.m() hidden in the argument list of another call), "
+                "self.x / self.m() hidden in the argument list of another call; positions include f-strings with a replacement field nested in the format specification - width, precision, first of two, spec of a later interpolation -, !r, =, :spec, a later interpolation, an f-string inside an f-string), "
+                "positions outside Class/Syntax.v as Python templates (%d: f-string as part of an implicit string concatenation, yield from, except T as e, each `if` of a comprehension with several, later for clauses, typed / keyword-only default and annotations of a nested def, lambda default, starred targets, match patterns and guard, bases / keywords / body of a class defined in the method, slice bounds, await / async for / async with ...) x (self.x shared, self.m() call, self.x nested in a call), decided against the method graph read off Python's own syntax tree (ast), " % len(EXTRA_POSITIONS) +
+                
                 "threshold lattice (1..8 components x 9 threshold pairs), random classes (0..12 methods, shared attributes, self-calls, static/class methods, "
                 "duplicate method names, every position), union-find stress classes (6..14 methods, every attribute shared by two or three methods, no method touching everything: "
                 "random/deep trees, forests, trees with extra edges, chains joined in the middle, pairs joined through a third attribute, stars linked leaf to leaf, caterpillars; "
                 "self-calls mixed with attribute edges; EACH class analysed %d times by the driver in two processes and twice by the CLI, the spec value required every time), "
                 "parser position table, CLI runs with default and custom [lcom] thresholds; distinct = distinct source texts" % n_runs,
-        "input_distribution": dict(dist, position_table_probes=n_table, e2e_classes=n_e2e, uf_stress_driver_runs=n_stress_runs,
+        "input_distribution": dict(dist, position_table_probes=n_table, extra_positions_outside_syntax=n_extra, e2e_classes=n_e2e, uf_stress_driver_runs=n_stress_runs,
                                    instance_method_count_histogram=dict(sorted(sizes.items())), component_count_histogram=dict(sorted(comps.items()))),
         "known_finding_cases": n_known,
         "model_mismatches": n_tie,
